@@ -57,7 +57,7 @@ RULE = (
     " chew_mandelstam_s_wave, a probe class and a probe function), return_*_hat, a prior formulate call with the"
     " opposite flag, route) from a per-tier list (quick: 20 configurations with <=2 channels + one 3-channel"
     " configuration per shard; thorough: full grid); each case evaluates a batch of real parameter points (64"
-    " quick, 256 thorough; half of them with s below the highest threshold) and runs the residual, structural"
+    " quick, 512 thorough; half of them with s below the highest threshold) and runs the residual, structural"
     " and (1x1 only) reduction oracles. Non-trivial: (non-default phase-space factor or L>0 or n_channels>=2)"
     " and >=20 points asserted with a non-vacuous tolerance. Distinct = distinct descriptor hash."
 )
@@ -68,16 +68,16 @@ ASSUMPTIONS = [
     " unevaluated node unfolded once (route compose); complex128 inputs with zero imaginary part",
     "residual tolerance 1e-9 * scale * cond, scale = |P| + n(1+|K|)|F|, cond = max(1,|K| resp. |K^ rho|)^(n-1);"
     " cond additionally multiplied by the measured rounding-noise amplification of the reference (re-evaluation with"
-    " inputs moved by 8 ulp); reduction tolerance 1e-9 relative times that amplification, RelativisticPVector"
+    " inputs moved by 8, 64, 512 ulp; result and reference); reduction tolerance 1e-9 relative times that amplification, RelativisticPVector"
     " reduction only where rho is real positive; points with 1e-9*cond > 1e-3, non-finite reference values or a rho within"
     " 1e-9 (angle) of the negative real axis (sqrt branch cut) are not asserted",
     "3-channel RelativisticPVector is not generated: its formulate() does not terminate within 15 minutes",
 ]
 BUDGET = {
     "quick": {"examples": 1280, "shards": 16, "cap_s": 150, "shrink_calls": 150, "shrink_s": 60},
-    "thorough": {"examples": 9600, "shards": 16, "cap_s": 1500, "shrink_calls": 600, "shrink_s": 240},
+    "thorough": {"examples": 4800, "shards": 16, "cap_s": 1500, "shrink_calls": 600, "shrink_s": 240},
 }
-BATCH = {"quick": 64, "thorough": 256}
+BATCH = {"quick": 64, "thorough": 512}
 TOL = 1e-9
 VACUOUS = 1e-3
 
@@ -332,15 +332,17 @@ def _built(cfg_cls, nc, npo, ell, d, phsp_name, hat, prior, route) -> _Built:
         return out
     out.structure = _structure(matrix, cfg_cls, ell, radius, phsp, phsp_name)
     try:
-        out.result = under_test("doit+lambdify", kmat.compile_matrix, matrix, route, allowed=(kmat.CompileError,))
+        out.result = under_test("doit+lambdify", kmat.compile_matrix, matrix, route, (nc, npo),
+                                allowed=(kmat.CompileError,))
+        ref = _reference_exprs(cfg_cls, nc, npo, ell, radius, phsp)
+        out.reference = under_test("reference doit+lambdify", kmat.Compiled, ref, (len(ref),), "compose", (nc, npo),
+                                   allowed=(kmat.CompileError,))
+        if nc == 1 and npo == 1:
+            red = _reduction_exprs(cfg_cls, ell, radius, phsp)
+            out.reduction = under_test("breit-wigner doit+lambdify", kmat.Compiled, red, (len(red),), "compose",
+                                       (nc, npo), allowed=(kmat.CompileError,))
     except kmat.CompileError as exc:
         out.problem = ("bad_symbols", {"got": str(exc)})
-        return out
-    ref = _reference_exprs(cfg_cls, nc, npo, ell, radius, phsp)
-    out.reference = under_test("reference doit+lambdify", kmat.Compiled, ref, (len(ref),), "compose")
-    if nc == 1 and npo == 1:
-        red = _reduction_exprs(cfg_cls, ell, radius, phsp)
-        out.reduction = under_test("breit-wigner doit+lambdify", kmat.Compiled, red, (len(red),), "compose")
     return out
 
 
@@ -349,22 +351,23 @@ def _point(vals, k) -> dict:
     return {name: np.asarray(arr)[k].tolist() for name, arr in vals.items()}
 
 
-PERTURBATION = 8 * kmat.EPS
+PERTURBATIONS = (8, 64, 512)  # ulp
 
 
-def _perturbed(vals, seed):
-    rng = np.random.default_rng([int(seed), 10])
-    return {k: np.asarray(v) * (1 + PERTURBATION * rng.choice([-1.0, 1.0], np.shape(v))) for k, v in vals.items()}
+def _perturbed(vals, seed, n_ulp):
+    rng = np.random.default_rng([int(seed), n_ulp])
+    return {k: np.asarray(v) * (1 + n_ulp * kmat.EPS * rng.choice([-1.0, 1.0], np.shape(v)))
+            for k, v in vals.items()}
 
 
-def _amplification(ref_a, ref_b) -> np.ndarray:
-    """Per point: max relative change of the reference values per relative change of the inputs
-    (/16: a sum or product of a dozen inputs moves by that much without any cancellation), >= 1."""
+def _amplification(ref_a, ref_b, n_ulp) -> np.ndarray:
+    """Per point: max relative change of the values per relative change of the inputs (/16: a sum or
+    product of a dozen inputs moves by that much without any cancellation), >= 1."""
     with np.errstate(all="ignore"):
         size = np.maximum(np.abs(ref_a), np.abs(ref_b))
         rel = np.where(size > 0, np.abs(ref_a - ref_b) / np.where(size > 0, size, 1.0), 0.0)
         rel = np.where(np.isfinite(rel), rel, 0.0).max(axis=1)
-    return np.maximum(1.0, rel / (16 * PERTURBATION))
+    return np.maximum(1.0, rel / (16 * n_ulp * kmat.EPS))
 
 
 def _worst(mask, ratio):
@@ -398,13 +401,16 @@ def run_case(desc) -> Result:  # noqa: C901, PLR0911, PLR0912, PLR0915
     got = built.result(vals, as_complex=True)  # (B, n, n) or (B, n, 1)
     ref = built.reference(vals, as_complex=True)  # (B, n*n + 2n)
     # rounding-noise amplification of the reference (K, P, rho) and of the result: re-evaluate with every input
-    # moved by 8 ulp (e.g. the Chew-Mandelstam function loses ~9 digits for s >> m1 m2, and result and reference
+    # moved by 8/64/512 ulp (e.g. the Chew-Mandelstam function loses ~9 digits for s >> m1 m2, and result and reference
     # evaluate it in a different order after common-subexpression elimination)
-    vals_p = _perturbed(vals, desc["point_seed"])
-    amp = np.maximum(
-        _amplification(ref, built.reference(vals_p, as_complex=True)),
-        _amplification(got.reshape(batch, -1), built.result(vals_p, as_complex=True).reshape(batch, -1)),
-    )
+    amp = np.ones(batch)
+    perturbed = []
+    for n_ulp in PERTURBATIONS:
+        vals_p = _perturbed(vals, desc["point_seed"], n_ulp)
+        perturbed.append((vals_p, n_ulp))
+        amp = np.maximum(amp, _amplification(ref, built.reference(vals_p, as_complex=True), n_ulp))
+        amp = np.maximum(amp, _amplification(
+            got.reshape(batch, -1), built.result(vals_p, as_complex=True).reshape(batch, -1), n_ulp))
     k_mat = ref[:, : nc * nc].reshape(batch, nc, nc)
     p_vec = ref[:, nc * nc : nc * nc + nc]
     rho = ref[:, nc * nc + nc :]
@@ -489,7 +495,9 @@ def run_case(desc) -> Result:  # noqa: C901, PLR0911, PLR0912, PLR0915
                 # "when we neglect sqrt(rho)" replaces sqrt(rho) *and* its conjugate by 1: a statement
                 # about real positive rho (for complex rho the ratio sqrt(rho)/sqrt(rho)^* remains in F^)
                 ok_pts &= (rho1.real > 0) & (np.abs(rho1.imag) <= 1e-12 * np.abs(rho1))
-            amp_c = np.maximum(amp, _amplification(red, built.reduction(vals_p, as_complex=True)))
+            amp_c = amp
+            for vals_p, n_ulp in perturbed:
+                amp_c = np.maximum(amp_c, _amplification(red, built.reduction(vals_p, as_complex=True), n_ulp))
             ok_pts &= TOL * amp_c <= VACUOUS
             tol_c = TOL * np.maximum(size, 1e-300) * amp_c
             ratio_c = np.where(ok_pts, diff / tol_c, 0.0)
